@@ -10,7 +10,7 @@ use std::ffi::OsString;
 
 pub static DEF: PropDef = PropDef {
     id: "C20",
-    rule: "random: 0-12 input lines built from words, inner and trailing blanks, the replacement string R itself, '{}', '%', multi-byte text, glob and shell characters (no quotes, backslashes or leading blanks: the statement's domain), blank lines in between, with/without final newline; sub-run long-input: 1-3 filler lines bring the first run of 2-4 empty lines onto a multiple of 4096/8192/16384 bytes (offset 0..run+1), so that the run is split between two reads; 0-4 initial arguments each holding 0-3 occurrences of R (adjacent, embedded, alone); R in {'{}', '_', 'XX', '%', 'é', '{', '{}{}'}; spellings -I R / -i / --replace / --replace=R; mode options: -I alone, or 2-3 of -I R, -n k, -L k (k in 1..3) in every order. Exhaustive sub-run: the full order matrix of {-I, -n k, -L k} (k in 1..3), 2 or 3 of them, on a fixed three-line input. Oracle: replace mode: records == for each non-empty line in order [initial args with every R replaced by the whole line], nothing appended, exit 0, empty input => no record; the mode is decided by the last of -I/-n/-L (-I with -n 1 in either order is replace mode); -n/-L modes are modelled as in C04 (blank splitting, k arguments / k lines per invocation, initial arguments unchanged). Non-trivial = (a line contains a blank or R, and some initial argument contains R at least twice) or >= 2 mode options are present. Distinct = distinct case JSON.",
+    rule: "random: 0-12 input lines built from words, inner and trailing blanks, the replacement string R itself, '{}', '%', multi-byte text (1 case in 8 written in Latin-1, so that such lines are not valid UTF-8; compared byte for byte), glob and shell characters (no quotes, backslashes or leading blanks: the statement's domain), blank lines in between, with/without final newline; sub-run long-input: 1-3 filler lines bring the first run of 2-4 empty lines onto a multiple of 4096/8192/16384 bytes (offset 0..run+1), so that the run is split between two reads; 0-4 initial arguments each holding 0-3 occurrences of R (adjacent, embedded, alone); R in {'{}', '_', 'XX', '%', 'é', '{', '{}{}'}; spellings -I R / -i / --replace / --replace=R; mode options: -I alone, or 2-3 of -I R, -n k, -L k (k in 1..3) in every order. Exhaustive sub-run: the full order matrix of {-I, -n k, -L k} (k in 1..3), 2 or 3 of them, on a fixed three-line input. Oracle: replace mode: records == for each non-empty line in order [initial args with every R replaced by the whole line], nothing appended, exit 0, empty input => no record; the mode is decided by the last of -I/-n/-L (-I with -n 1 in either order is replace mode); -n/-L modes are modelled as in C04 (blank splitting, k arguments / k lines per invocation, initial arguments unchanged). Non-trivial = (a line contains a blank or R, and some initial argument contains R at least twice) or >= 2 mode options are present. Distinct = distinct case JSON.",
     assumptions: &[
         "lines are free of quotes, backslashes and leading blanks (stated domain); a line of only blanks is not generated",
         "three mode options that include -I, -n 1 and -L together are not generated: 'last wins' and '-I with -n 1 is not a conflict' do not settle which mode results",
@@ -43,6 +43,38 @@ pub struct Case {
     /// across the reader's block boundaries
     #[serde(default)]
     pub lead: Vec<u32>,
+    /// the input is written in Latin-1: every character of a line up to U+00FF becomes one byte, so
+    /// lines with 'é' are not valid UTF-8 (the command line itself stays UTF-8)
+    #[serde(default)]
+    pub latin1: bool,
+}
+
+/// the bytes a line is written as
+fn line_bytes(c: &Case, l: &str) -> Vec<u8> {
+    if !c.latin1 {
+        return l.as_bytes().to_vec();
+    }
+    let mut v = vec![];
+    for ch in l.chars() {
+        if (ch as u32) < 256 {
+            v.push(ch as u32 as u8);
+        } else {
+            v.extend_from_slice(ch.to_string().as_bytes());
+        }
+    }
+    v
+}
+
+fn replace_bytes(hay: &[u8], needle: &[u8], with: &[u8]) -> Vec<u8> {
+    let mut out = vec![];
+    let mut rest = hay;
+    while let Some(at) = rest.windows(needle.len()).position(|w| w == needle) {
+        out.extend_from_slice(&rest[..at]);
+        out.extend_from_slice(with);
+        rest = &rest[at + needle.len()..];
+    }
+    out.extend_from_slice(rest);
+    out
 }
 
 /// every input line in order, filler lines included
@@ -129,7 +161,7 @@ pub fn gen_case(g: &mut Gen) -> Case {
             v
         }
     };
-    Case { lines, blanks_before, final_newline: g.chance(4, 5), initial, r, spelling, modes, lead: vec![] }
+    Case { lines, blanks_before, final_newline: g.chance(4, 5), initial, r, spelling, modes, lead: vec![], latin1: g.chance(1, 8) }
 }
 
 /// A case whose first run of empty lines straddles a multiple of the reader's block size (BufReader:
@@ -160,26 +192,26 @@ pub fn gen_long_case(g: &mut Gen) -> Case {
 }
 
 pub fn render_input(c: &Case) -> Vec<u8> {
-    let mut s = String::new();
+    let mut s: Vec<u8> = vec![];
     for n in &c.lead {
-        s.push_str(&"f".repeat(*n as usize));
-        s.push('\n');
+        s.extend(std::iter::repeat(b'f').take(*n as usize));
+        s.push(b'\n');
     }
     for (i, l) in c.lines.iter().enumerate() {
         for _ in 0..c.blanks_before.get(i).copied().unwrap_or(0) {
-            s.push('\n');
+            s.push(b'\n');
         }
-        s.push_str(l);
+        s.extend_from_slice(&line_bytes(c, l));
         if i + 1 < c.lines.len() || c.final_newline {
-            s.push('\n');
+            s.push(b'\n');
         }
     }
     if c.final_newline || c.lines.is_empty() {
         for _ in 0..c.blanks_before.get(c.lines.len()).copied().unwrap_or(0) {
-            s.push('\n');
+            s.push(b'\n');
         }
     }
-    s.into_bytes()
+    s
 }
 
 #[derive(Debug, PartialEq, Eq, Clone, Copy)]
@@ -239,6 +271,14 @@ fn is_blank(ch: char) -> bool {
 
 pub fn check(ctx: &mut Ctx, c: &Case) -> Outcome {
     let Some(eff) = effective(&c.modes) else { return Pass::discard("mode combination not decided by the statement") };
+    // Latin-1 input only where the replace mode is in force (the other modes are C04's and C05's subject)
+    let adjusted;
+    let c = if c.latin1 && eff != Eff::Replace {
+        adjusted = Case { latin1: false, ..c.clone() };
+        &adjusted
+    } else {
+        c
+    };
     let input = render_input(c);
     let lines = all_lines(c);
     let opts = cmdline(c);
@@ -282,6 +322,12 @@ pub fn check(ctx: &mut Ctx, c: &Case) -> Outcome {
     };
     let run = run_xargs(ctx, &opts, &cmd, &input, "", BinOpts { clear_env: true, ..Default::default() });
     let got: Vec<Vec<String>> = run.records.iter().map(|r| r.args.iter().map(|a| lossy(a)).collect()).collect();
+    // byte-exact comparison for input that is not valid UTF-8
+    let raw_mismatch = c.latin1 && {
+        let want_b: Vec<Vec<Vec<u8>>> = lines.iter().map(|l| c.initial.iter().map(|i| replace_bytes(i.as_bytes(), c.r.as_bytes(), &line_bytes(c, l))).collect()).collect();
+        let got_b: Vec<Vec<Vec<u8>>> = run.records.iter().map(|r| r.args.clone()).collect();
+        want_b != got_b
+    };
     let modes_s = c.modes.iter().map(|m| match m {
         ModeOpt::I => "I".to_string(),
         ModeOpt::N(k) => format!("n{k}"),
@@ -294,7 +340,10 @@ pub fn check(ctx: &mut Ctx, c: &Case) -> Outcome {
     if run.out.code != Some(0) {
         return fail(format!("C20:exit-status-{}:{modes_s}", run.out.code.unwrap_or(-1)), desc());
     }
-    if got != expected {
+    if raw_mismatch && got.len() == expected.len() {
+        return fail("C20:replacement-text:line-that-is-not-valid-utf8", format!("{}\nobserved argument bytes: {:?}", desc(), run.records.iter().map(|r| r.args.clone()).collect::<Vec<_>>()));
+    }
+    if got != expected && !c.latin1 || (c.latin1 && raw_mismatch) {
         let what = if eff != Eff::Replace {
             "mode-selection-or-batching"
         } else if got.len() != expected.len() {
@@ -320,6 +369,7 @@ pub fn check(ctx: &mut Ctx, c: &Case) -> Outcome {
         .class_if(c.initial.iter().any(|i| { let f: String = c.r.chars().take(1).collect(); c.r.chars().count() >= 2 && i.contains(&format!("{f}{}", c.r)) }), "R-preceded-by-its-own-prefix")
         .class_if(c.r != "{}", "custom-R")
         .class_if(!c.lead.is_empty(), "empty-lines-across-a-block-boundary")
+        .class_if(c.latin1 && lines.iter().any(|l| !l.is_ascii()), "input-line-not-valid-utf8")
         .sample(json!({"cmdline": format!("xargs {} rec {:?}", opts.iter().map(|o| o.to_string_lossy().into_owned()).collect::<Vec<_>>().join(" "), c.initial), "input": if input.len() > 300 { format!("{} bytes; lead lines {:?}; then {:?}", input.len(), c.lead, lossy(&input[input.len() - 120..])) } else { lossy(&input) }, "invocations": got.len()}))
         .ok()
 }
@@ -334,7 +384,7 @@ fn run(w: &mut Worker) {
         ModeOpt::N(_) => 1,
         ModeOpt::L(_) => 2,
     };
-    let base = |modes: Vec<ModeOpt>, spelling: u8| Case { lines: vec!["a b".into(), "c".into(), "d e f".into(), "g".into(), "h i".into()], blanks_before: vec![0, 0, 1, 0, 0, 0], final_newline: true, initial: vec!["<{}>".into(), "k".into()], r: "{}".into(), spelling, modes, lead: vec![] };
+    let base = |modes: Vec<ModeOpt>, spelling: u8| Case { lines: vec!["a b".into(), "c".into(), "d e f".into(), "g".into(), "h i".into()], blanks_before: vec![0, 0, 1, 0, 0, 0], final_newline: true, initial: vec!["<{}>".into(), "k".into()], r: "{}".into(), spelling, modes, lead: vec![], latin1: false };
     for a in &opts {
         for b in &opts {
             if kind(a) == kind(b) {
